@@ -370,6 +370,10 @@ fn capabilities_detect(term: &mut UnixTerminal) -> Result<(), Error> {
     let size_ioctl = term.size_ioctl()?;
     if size_ioctl.pixels.is_empty() && !size_escape.pixels.is_empty() {
         tracing::warn!("[capabilities_detected] fallback to escape sequence for term size");
+        if size_escape.cells.is_empty() {
+            // only the pixel size request has been answered
+            size_escape.cells = size_ioctl.cells;
+        }
         term.size = Some(size_escape);
     }
 
@@ -541,17 +545,22 @@ impl Terminal for UnixTerminal {
                 while let Some(event) = self.decoder.decode(&mut read_queue)? {
                     if let TerminalEvent::Size(size) = event {
                         // we are using escape sequence to determine terminal resize
-                        if let Some(term_size) = self.size.as_mut() {
-                            // responses to the two size requests may arrive separately
+                        if let Some(mut term_size) = self.size {
+                            // responses to the two size requests may arrive separately,
+                            // and only the pixels request is certain to be answered
                             if !size.cells.is_empty() {
                                 term_size.cells = size.cells;
-                                self.size_requests = self.size_requests.saturating_sub(1);
                             }
                             if !size.pixels.is_empty() {
                                 term_size.pixels = size.pixels;
+                                if size.cells.is_empty() {
+                                    term_size.cells = self.size_ioctl()?.cells;
+                                }
+                                self.size_requests = self.size_requests.saturating_sub(1);
                             }
-                            let size = *term_size;
-                            self.events_queue.push_back(TerminalEvent::Resize(size));
+                            self.size = Some(term_size);
+                            self.events_queue
+                                .push_back(TerminalEvent::Resize(term_size));
                         }
                     }
                     if !self.image_handler.handle(&mut self.write_queue, &event)? {
